@@ -30,8 +30,7 @@ pub fn semilegal_validator_exact<S: Src, const SIDE: u8, const KG: u8>(s: &mut S
         None => return,
     };
     let p = pos_of(b.raw());
-    let m = any_m(s);
-    vassume!(in_group(m, KG));
+    let m = any_m_g::<S, SIDE, KG>(s);
     vassume!(wf_ref(m));
     let mv = mv_of(m);
     let want = semilegal_ref(&p, m);
